@@ -105,6 +105,8 @@ impl TypeChecker {
         let mut counter = 0;
         while let Some(value) = result_values.pop_front() {
             // If we have been told to stop, stop and return an error.
+            #[cfg(smlxl_storage_layout_extractor_verif)]
+            crate::verif_hooks::poll_site("tc.lift");
             if counter % polling_interval == 0 && self.watchdog.should_stop() {
                 Err(Error::StoppedByWatchdog).locate(value.instruction_pointer())?;
             }
@@ -144,6 +146,8 @@ impl TypeChecker {
         let mut counter = 0;
         while let Some(value) = values.pop_front() {
             // If we have been told to stop, stop and return an error
+            #[cfg(smlxl_storage_layout_extractor_verif)]
+            crate::verif_hooks::poll_site("tc.assign");
             if counter % polling_interval == 0 && self.watchdog.should_stop() {
                 Err(Error::StoppedByWatchdog).locate(value.instruction_pointer())?;
             }
@@ -173,6 +177,8 @@ impl TypeChecker {
 
         for (counter, value) in values.into_iter().enumerate() {
             // If we have been told to stop, stop and return an error.
+            #[cfg(smlxl_storage_layout_extractor_verif)]
+            crate::verif_hooks::poll_site("tc.infer");
             if counter % polling_interval == 0 && self.watchdog.should_stop() {
                 Err(Error::StoppedByWatchdog).locate(value.instruction_pointer())?;
             }
@@ -217,6 +223,8 @@ impl TypeChecker {
 
         for (count, slot) in constant_storage_slots.into_iter().enumerate() {
             // If we have been told to stop, stop and return an error
+            #[cfg(smlxl_storage_layout_extractor_verif)]
+            crate::verif_hooks::poll_site("tc.layout");
             if count % polling_interval == 0 && self.watchdog.should_stop() {
                 Err(Error::StoppedByWatchdog).locate(slot.instruction_pointer())?;
             }
